@@ -87,6 +87,15 @@ func c17Bits(c *Ctx) int {
 			ob := outBytes(rs, 0)
 			spec, ok := sp.out[len(ob)]
 			n++
+			if !ok && len(ob) == 0 {
+				// the encoding is built by a helper that returns the slice: its octets are not cells of this function
+				addOrUndecided(c, "BITS.L1", fname, "output length is one of the specified sizes", p.Position(rs.Ret.Pos()), false,
+					fmt.Sprintf("the octets of the returned slice are not tracked; specification sizes: %v", keysOf(sp.out)), ma)
+				for l := range sp.out {
+					seenLen[l] = seenLen[l] || len(newHelpers(ma)) > 0
+				}
+				continue
+			}
 			r.Add("BITS.L1", fname, fmt.Sprintf("output length %d is one of the specified sizes", len(ob)), p.Position(rs.Ret.Pos()), ok,
 				fmt.Sprintf("encoder emits %d bytes; specification sizes: %v", len(ob), keysOf(sp.out)))
 			if !ok {
@@ -168,7 +177,9 @@ func c17Bits(c *Ctx) int {
 			n++
 			addOrUndecided(c, "BITS.L2", uname, "optional 64-bit offset = big-endian bytes 8..15", p.Position(um.Pos()), found, "no cell holds the big-endian value of rawData[8:16]", um)
 		}
-		if nSucc == 0 {
+		if nSucc == 0 && len(newHelpers(um)) > 0 {
+			r.Infof("BITS.L2 %s: not decided — no success return of its own (the decoding goes through new helper(s))", uname)
+		} else if nSucc == 0 {
 			r.Fatalf("BITS: %s has no success return", uname)
 		}
 	}
